@@ -1,4 +1,5 @@
 """C08 - pause and freeze annotations stop exactly what they promise to stop."""
+import k8s as K
 import project as P
 import worldgen
 import wprop
@@ -80,6 +81,14 @@ def generate(rng, tier, stats):
                      "annotations": ann, "no_faults": rng.random() < 0.9}
             c = worldgen.gen_eds_world(rng, stats, force)
             wprop.bump(stats, "eds paused/valid", "%s/%s" % (p, v))
+        if k != 0 and ann.get(P.A_PAUSED) not in (None, "true") and rng.random() < 0.6:
+            # the replica set paused itself (auto-pause) while the annotation says anything but "true"
+            for o in c["objects"]:
+                if o["kind"] == "ExtendedDaemonSetReplicaSet" and o["metadata"]["name"] == "foo-b":
+                    conds = o.setdefault("status", {}).setdefault("conditions", [])
+                    conds[:] = [x for x in conds if x["type"] != "Canary-Paused"]
+                    conds.append(K.cond("Canary-Paused", "True", trans=-40, reason=rng.choice(["CrashLoopBackOff", "ImagePullBackOff"])))
+                    wprop.bump(stats, "auto-paused under a non-true canary-paused annotation", ann.get(P.A_PAUSED))
         out.append(c)
     return out
 
